@@ -1,7 +1,8 @@
 """Engine BYTES/sockets (C18): anyio socket streams over a simulated kernel.
 
 "TCP-like" ends are the real anyio StreamProtocol + SocketStream on the real
-asyncio.selector_events._SelectorSocketTransport, "UNIX-like" ends are the real anyio UNIXSocketStream on
+asyncio.selector_events._SelectorSocketTransport (built as connect_tcp() builds them, or through anyio's own
+wrap_stream_socket() path), "UNIX-like" ends are the real anyio UNIXSocketStream on
 the raw socket object; the socket objects are SimSockets (simkit/simio.py): bounded kernel buffers (1 byte
 .. several KiB), seeded short reads/writes, spurious EAGAIN, in-flight delays and readiness order.
 
@@ -37,7 +38,7 @@ def gen_case(seed, tier, prop="C18"):
         msgs = []
         for _ in range(rng.randint(0, 6 if big else 4)):
             msgs.append(rng.choice([1, 1, 2, 5, 17, 100, 300, 1000, 5000] if big else [1, 2, 5, 17, 100, 300, 1000]))
-        return {"kind": rng.choice(["tcp", "tcp_accepted", "unix"]),
+        return {"kind": rng.choice(["tcp", "tcp_wrapped", "unix"]),
                 "rtimeout": [rng.choice([None, None, None, 0, 0.0625]) for _ in range(3)],
                 "msgs": msgs,
                 "wpause": [rng.choice([0, 0, 0, 0.125]) for _ in range(3)],
@@ -93,12 +94,16 @@ class SockRun:
         loop = self.sim.loop
         if kind == "unix":
             return A.UNIXSocketStream(sock), None, None
+        if kind == "tcp_wrapped":
+            # anyio's own creation path for an existing socket object (SocketStream.from_socket ->
+            # AsyncIOBackend.wrap_stream_socket -> loop.create_connection(sock=...)), unchanged
+            stream = await A.AsyncIOBackend.wrap_stream_socket(sock)
+            return stream, stream._transport, stream._protocol
         proto = A.StreamProtocol()
         tr = selector_events._SelectorSocketTransport(loop, sock, proto)
         await sleep(0)
         await sleep(0)
-        if kind == "tcp":
-            tr.pause_reading()      # like connect_tcp(); accepted streams (TCPListener.accept) start reading at once
+        tr.pause_reading()      # what connect_tcp() does after creating the transport
         return A.SocketStream(tr, proto), tr, proto
 
     async def main(self):
@@ -116,13 +121,19 @@ class SockRun:
         limit = {"a": c["cap_ba"], "b": c["cap_ab"]}
 
         def watch():
-            # bounded memory: what a paused reader has buffered in user space is at most what one readiness
-            # callback could pull out of the kernel buffer
+            # back-pressure on the receiving side: once the application has started reading, the protocol's
+            # user-space queue may only grow while a receive() call is in progress (between calls the transport
+            # must be paused, so that unread data stays in the bounded kernel buffer)
             for name, e in ends.items():
                 if e["proto"] is not None and hasattr(e["proto"], "read_queue"):
                     q = sum(len(x) for x in e["proto"].read_queue)
-                    if q > 2 * limit[name] + 65536 * 0 + max(e["cfg"]["recv_sizes"]) * 0 + 2 * 4096 and q > 2 * limit[name]:
-                        self.v("unbounded_read_buffer", f"{name}: {q} bytes queued in the protocol while the kernel buffer is {limit[name]}")
+                    last = e.get("queued", 0)
+                    e["queued"] = q
+                    if (q > last and e.get("in_receive") is None and not e.get("probe_receiving")
+                            and e.get("receive_calls", 0) > 0 and not e["closed"]):
+                        self.v("reader_not_paused", f"{name}: the protocol's read queue grew from {last} to {q} bytes while no "
+                                                    f"receive() call was in progress (kernel buffer {limit[name]} bytes): the "
+                                                    f"transport keeps reading, so the writer is no longer held back")
         loop.post_iteration.append(watch)
 
         async def writer(name):
@@ -174,6 +185,7 @@ class SockRun:
                     m = cfg["recv_sizes"][k % len(cfg["recv_sizes"])]
                     k += 1
                     e["in_receive"] = loop.iterations
+                    e["receive_calls"] = e.get("receive_calls", 0) + 1
                     busy = False
                     d = None
                     try:
@@ -226,6 +238,7 @@ class SockRun:
                 # the reader task is (or will be) parked in receive(); a second receive must be refused
                 for _ in range(6):
                     await sleep(0)
+                e["probe_receiving"] = True
                 try:
                     d = await st.receive(1)
                 except BusyResourceError:
@@ -236,6 +249,8 @@ class SockRun:
                 else:
                     e["got"] += d          # legitimately got there first: still part of the stream
                     self.h.rec("recv", name + "-probe", len(d))
+                finally:
+                    e["probe_receiving"] = False
             elif kind == "busy_send" and cfg["msgs"]:
                 for _ in range(3):
                     await sleep(0)
